@@ -31,8 +31,8 @@ def check(ctx):
         hsA, frA, knA = ptgrun.make_jobs(pa, exes, OR_A, True, '0', '0', (1, 2), 1, 2, 1, 14, 16, extra=again, tag='again')
         hsB, frB, knB = ptgrun.make_jobs(pb, exes, OR_B, True, grid, grid, (1, 2), 1, 3, 1, 14, 16, tag='startup')
     else:
-        hsA, frA, knA = ptgrun.make_jobs(pa, exes, OR_A, False, '0,1:1', '0,1:1', (1, 2, 4), 2, 3, 3, 300, 240, extra=again, tag='again')
-        hsB, frB, knB = ptgrun.make_jobs(pb, exes, OR_B, False, grid, grid, (1, 2, 4), 2, 4, 2, 300, 240, tag='startup')
+        hsA, frA, knA = ptgrun.make_jobs(pa, exes, OR_A, False, '0,1:1', '0,1:1', (1, 2, 4), 2, 3, 3, 150, 240, extra=again, tag='again')
+        hsB, frB, knB = ptgrun.make_jobs(pb, exes, OR_B, False, grid, grid, (1, 2, 4), 2, 4, 2, 150, 240, tag='startup')
     ctx.notes.append('part A: %d programs / %d variants; part B: %d programs / %d variants; refused by the interpreter: %d' % (
         len(pa), sum(len(p.variants) for p in pa), len(pb), sum(len(p.variants) for p in pb), ra + rb))
     R.run_jobs(hsA, 'A-again-scripts-hsched-task-orders')
